@@ -1062,6 +1062,7 @@ def run(model, rep, tier):
     rep.rule('R07.12', 'build-time divisions by axis lengths are preceded by a test that excludes zero (empty arrays)')
     rep.rule('R07.13', 'dot/matmul/vdot contract the axis that carries the contracted length of both operands and return NumPy\'s shape (labelled-shape interpretation)')
     rep.rule('R07.14', 'composite implementations with axis arguments deliver NumPy\'s result shape for the oracle calls (labelled-shape interpretation)')
+    rep.rule('R07.15', 'integer ranges of the index-producing nodes (SearchSorted, ArgSort, Find, Range, ...) equal interval arithmetic (= R06.4)')
     rep.rule('R07.8', 'every _Transpose is constructed from normalised, permutation-checked axes')
     rep.trusted_base.append('oracles/numpy_api.json (NumPy documented semantics)')
     check_chains(model, rep, oracle)
@@ -1076,6 +1077,8 @@ def run(model, rep, tier):
     check_build_time_division(model, rep)
     check_contraction_shapes(model, rep, oracle)
     check_result_shapes(model, rep, oracle)
+    from rules.c06 import check_transfer, _OnlyRule
+    check_transfer(model, _OnlyRule(rep, {'R06.4': 'R07.15'}))   # the ranges of the index-producing nodes behind searchsorted/argsort/take
     check_namespace_table(model, rep, oracle)
     rep.require('R07.1', 55)
     rep.require('R07.2', 40)
